@@ -16,9 +16,11 @@ from .. import anf
 from .common import struct_ob, formula_ob, guard, last_return, U
 from . import mcmc
 from ..report import AnalysisError
+from .hmcmass import momentum_obligations
 
 FLOORS = {"accept-form": 5, "accept-orientation": 5, "accept-shortcut": 4, "temper": 8,
-          "new-old-binding": 2, "proposal-symmetric": 4, "stretch": 3, "hmc-fresh-momentum": 1}
+          "new-old-binding": 2, "proposal-symmetric": 4, "stretch": 3, "hmc-fresh-momentum": 1,
+          "momentum-samples-kinetic": 3}
 
 OPAQUE = {"inv_temp", "n_parameters", "n_walkers", "posterior", "rng", "mass", "ES", "params",
           "directions", "max_attempts", "steps", "bounds", "process_proposal", "walker_positions",
@@ -236,6 +238,8 @@ def run(prog, tier):
     obs.extend(_proposals(prog))
     obs.extend(_stretch(prog))
     obs.append(_hmc_fresh(prog))
+    # the momentum refresh samples exp(-K): its covariance is the inverse of the kinetic energy's metric, per mass class
+    obs.extend(momentum_obligations(prog, "momentum-samples-kinetic"))
 
     meta = {
         "explanation": "At each accept test (located by its uniform draw) the def-use expansion of the test's other side is "
@@ -244,7 +248,8 @@ def run(prog, tier):
                        "shortcut accepts must imply A >= 1, the loop-carried OLD is refreshed from NEW; proposals are "
                        "N(current, sigma) draws (plain / |.| / folded), the PCA move is homogeneous of degree one in a zero-mean draw, "
                        "the stretch move is X_j + z (X_i - X_j) with j != i and z(0)=1/alpha, z(1)=alpha, and HMC draws fresh momentum "
-                       "per attempt and integrates copies.",
+                       "per attempt from the Gaussian whose precision is the kinetic energy's metric (per mass class, in scalar / "
+                       "non-commutative normal form) and integrates copies.",
         "assumptions": ["numpy Generator.random/normal/integers sample the named laws",
                         "folds are measure-preserving symmetries of the box (paper argument, DESIGN.md C01)"],
         "info": info,
